@@ -155,6 +155,8 @@ class SrcModel:
     def __init__(self, repo: Path, overlay: Optional[Dict[str, str]] = None):
         self.repo = Path(repo)
         self.overlay = dict(overlay or {})
+        from .evalmodel import STUB_PATH, STUB_SRC  # checker-side stub classes live in a virtual module
+        self.overlay.setdefault(STUB_PATH, STUB_SRC)
         self.modules: Dict[str, Module] = {}
         self.functions: Dict[str, FuncDef] = {}
         self.classes: Dict[str, ClassDef] = {}
